@@ -270,22 +270,57 @@ def run(prog, ctx):
         jf = prog.fn("join_same_entries")
         ctx.touch(jf)
         from sa import loops as _loops
-        fl = [x for x in jf.walk() if x.k == "ForStmt"]
-        outer = [x for x in fl if not any(a.k == "ForStmt" for a in x.ancestors())]
-        inner = [x for x in fl if any(a.k == "ForStmt" for a in x.ancestors())]
+        LOOPK = ("ForStmt", "WhileStmt", "DoStmt")
+        obj = jf.params[0]["name"]
+        fl = [x for x in jf.walk() if x.k in LOOPK and any(c2.k == "CallExpr" and c2.j.get("callee") == "strcmp" for c2 in x.walk())]
+        outer = [x for x in fl if not any(a.k in LOOPK for a in x.ancestors())]
+        inner = [x for x in fl if any(a is outer[0] for a in x.ancestors())] if len(outer) == 1 else []
+        inner = [x for x in inner if not any(a.k in LOOPK and a is not outer[0] and a.within(outer[0]) for a in x.ancestors())]
+        verdict = None
         if len(outer) == 1 and len(inner) == 1:
-            so, si = _loops.for_shape(outer[0]), _loops.for_shape(inner[0])
-            obj = jf.params[0]["name"]
-            ok_shape = _loops.covers_range(so, 0, "%s->length" % obj) and si.ok and si.step > 0 and si.start == "%s + 1" % so.var and si.cmp == "<" and si.bound == "%s->length" % obj
-            early = [x for x in inner[0].child("body").walk() if x.k in ("BreakStmt", "GotoStmt") or (x.k == "ReturnStmt" and query.returned_constant(x) != "ECONF_NOMEM")]
-            early = [x for x in early if not any(a.k in ("ForStmt", "WhileStmt", "DoStmt", "SwitchStmt") and a is not inner[0] and a.within(inner[0]) for a in x.ancestors())]
-            if ok_shape and not early:
-                ctx.ok("O7", "the join pass visits every later definition of a key", inner[0].where, "%s; %s; no early exit" % (so.describe(), si.describe()))
-            elif not ok_shape:
-                ctx.fail("O7", "the join pass visits every later definition of a key", inner[0].where, "loops are `%s` / `%s`" % (so.describe(), si.describe()), key="join-range")
+            to = [t for t in _loops.traversals(outer[0]) if t.base == "%s->file_entry" % obj]
+            desc = ""
+            ok_shape = None
+            if to and to[0].covers("%s->file_entry" % obj, "%s->length" % obj):
+                t0 = to[0]
+                if not t0.ptr:
+                    si = _loops.index_shape(inner[0])
+                    ok_shape = si.ok and si.step > 0 and si.start == "%s + 1" % t0.var and si.cmp == "<" and si.bound == "%s->length" % obj
+                    desc = "%s; %s" % (t0.describe(), si.describe())
+                else:
+                    # pointer form: q starts at the outer pointer (pre-incremented in the condition) or one behind it, and runs to the same end
+                    cond = inner[0].child("cond")
+                    c0 = cond.strip() if cond is not None else None
+                    ok_shape = False
+                    if c0 is not None and c0.k == "BinaryOperator" and c0.j.get("op") == "<":
+                        lhs0 = c0.children[0].strip()
+                        pre = lhs0.k == "UnaryOperator" and lhs0.j.get("op") == "++" and not lhs0.j.get("postfix")
+                        q = render(lhs0.children[0]) if pre else render(lhs0)
+                        endn = c0.children[1].strip()
+                        endt = render(endn)
+                        from sa.dataflow import ReachingDefs
+                        rdj = ReachingDefs(jf)
+                        if endn.k == "DeclRefExpr" and endn.j.get("dk") == "local":
+                            dsx = [d for d in rdj.defs if d.var == endn.j["name"] and d.kind in ("init", "assign") and d.rhs is not None]
+                            endt = render(dsx[0].rhs) if len(dsx) == 1 else endt
+                        qd = [d for d in rdj.reaching(q, lhs0 if pre else cond) if d.node is None or not d.node.within(inner[0])]
+                        qd = [d for d in qd if d.kind in ("init", "assign") and d.rhs is not None]
+                        incs = [x for x in inner[0].walk() if x.k == "UnaryOperator" and x.j.get("op") == "++" and render(x.children[0]) == q]
+                        start_ok = len(qd) == 1 and ((pre and render(qd[0].rhs) == t0.var) or (not pre and render(qd[0].rhs) == "%s + 1" % t0.var))
+                        ok_shape = start_ok and len(incs) == 1 and endt == "%s->file_entry + %s->length" % (obj, obj)
+                        desc = "%s; inner pointer `%s` from %s%s up to %s" % (t0.describe(), q, render(qd[0].rhs) if qd else "?", " (+1 in the condition)" if pre else "", endt)
+            if ok_shape is None:
+                ctx.inconclusive("O7", "the join pass visits every later definition of a key", jf.where, "outer loop over %s->file_entry not recognised" % obj)
             else:
-                ctx.fail("O7", "the join pass visits every later definition of a key", early[0].where,
-                         "the scan of later definitions is left early (%s): with three or more definitions only the first ones are joined" % early[0].k, key="join-early-exit")
+                early = [x for x in inner[0].child("body").walk() if x.k in ("BreakStmt", "GotoStmt") or (x.k == "ReturnStmt" and query.returned_constant(x) != "ECONF_NOMEM")]
+                early = [x for x in early if not any(a.k in LOOPK + ("SwitchStmt",) and a is not inner[0] and a.within(inner[0]) for a in x.ancestors())]
+                if ok_shape and not early:
+                    ctx.ok("O7", "the join pass visits every later definition of a key", inner[0].where, "%s; no early exit" % desc)
+                elif not ok_shape:
+                    ctx.fail("O7", "the join pass visits every later definition of a key", inner[0].where, "loops are %s" % desc, key="join-range")
+                else:
+                    ctx.fail("O7", "the join pass visits every later definition of a key", early[0].where,
+                             "the scan of later definitions is left early (%s): with three or more definitions only the first ones are joined" % early[0].k, key="join-early-exit")
         else:
             ctx.inconclusive("O7", "the join pass visits every later definition of a key", jf.where, "pairwise loops not recognised")
         a0 = render(jc[0].call_args()[0])
